@@ -188,9 +188,12 @@ func (u *unifiedEdge) amtInRange(amt lnwire.MilliSatoshi) bool {
 		return false
 	}
 
-	// Skip channels for which this htlc is too large.
-	if u.policy.HasMaxHTLC &&
-		amt > u.policy.MaxHTLC {
+	// Skip channels for which this htlc is too large. The hint edge of a
+	// blinded path carries the path's htlc_maximum in MaxHTLC without the
+	// HasMaxHTLC flag, so a non-zero value on a blinded edge counts too.
+	hasMaxHTLC := u.policy.HasMaxHTLC ||
+		(u.blindedPayment != nil && u.policy.MaxHTLC > 0)
+	if hasMaxHTLC && amt > u.policy.MaxHTLC {
 
 		log.Tracef("Exceeds policy's MaxHTLC: amt=%v, MaxHTLC=%v",
 			amt, u.policy.MaxHTLC)
